@@ -136,7 +136,72 @@ def same_basename_sequences(res, tier):
     return stats
 
 
+def edited_helper(res):
+    """A helper module next to the program is edited (lines inserted above its function) between two compilations of the
+    program in one process: the operation the helper creates must be designated in the helper's text as it is embedded."""
+    import json
+    import os
+    import shutil
+    import subprocess
+    import sys
+    import tempfile
+    tmp = tempfile.mkdtemp(prefix="nvc19eh")
+    n = 0
+    try:
+        main = "from nada_dsl import *\nimport tariff\n\n\ndef nada_main():\n    p = Party(name='P')\n    a = SecretInteger(Input(name='a', party=p))\n    return [Output(tariff.double(a), 'o', p)]\n"
+        old = "def double(x):\n    return x + x\n"
+        new = "# a note\n# and another\n\n\ndef double(x):\n    return x + x\n"
+        for variant in ("edit", "longer"):
+            d = os.path.join(tmp, variant)
+            os.makedirs(d)
+            mp, hp, ep = os.path.join(d, "main.py"), os.path.join(d, "tariff.py"), os.path.join(d, "edited.txt")
+            for path, text in ((mp, main), (hp, old), (ep, new if variant == "edit" else new + "\n\nUNUSED = 1\n")):
+                with open(path, "w", encoding="utf-8") as f:
+                    f.write(text)
+            env = dict(os.environ, PYTHONPATH=core.REPO + os.pathsep + os.path.join(core.VERIF, "harness"), PYTHONDONTWRITEBYTECODE="1")
+            p = subprocess.run([sys.executable, "-m", "nv.real.fresh_hist", "script", mp, f"@write:{hp}={ep}", mp], cwd=d, env=env,
+                               capture_output=True, text=True, timeout=120)
+            try:
+                outs = json.loads(p.stdout)
+            except ValueError:
+                raise core.Infra(f"fresh_hist failed: {(p.stderr or p.stdout)[-300:]}")
+            with open(ep, encoding="utf-8") as f:
+                edited = f.read()
+            for k, (o, helper_text) in enumerate(zip(outs, (old, edited))):
+                n += 1
+                if "mir" not in o:
+                    res.violation({"property": "C19", "kind": "edited-helper", "text": f"compilation {k + 1} failed: {o.get('msg')}", "variant": variant},
+                                  f"program importing a helper module, compilation {k + 1}: {o.get('msg')}")
+                    continue
+                mir = o["mir"]
+                # the references the MIR's operations actually use (the table also keeps entries of earlier compilations)
+                used = set()
+                for table in [mir.get("operations", {})] + [f.get("operations", {}) for f in mir.get("functions", [])]:
+                    for op in table.values():
+                        for body in op.values():
+                            if isinstance(body, dict) and "source_ref_index" in body:
+                                used.add(body["source_ref_index"])
+                refs = [r for i, r in enumerate(mir.get("source_refs", [])) if i in used and r.get("file") == "tariff.py"]
+                if not refs:
+                    res.violation({"property": "C19", "kind": "edited-helper", "variant": variant, "compilation": k + 1, "text": "no operation refers to tariff.py"},
+                                  f"helper module edited between two compilations (compilation {k + 1}): no operation of the MIR is attributed to tariff.py")
+                shown = mir.get("source_files", {}).get("tariff.py")
+                for r in refs:
+                    text = shown if shown is not None else helper_text
+                    got = text[r["offset"]:r["offset"] + r["length"]]
+                    if "x + x" not in got or shown not in (None, helper_text):
+                        res.violation({"property": "C19", "kind": "edited-helper", "variant": variant, "compilation": k + 1, "reference": r,
+                                       "text": f"the Addition created by `return x + x` of tariff.py is designated as line {r['lineno']} = {got!r}"},
+                                      f"helper module edited between two compilations of the program in one process (compilation {k + 1}): the "
+                                      f"operation created by `return x + x` is designated as tariff.py line {r['lineno']}: {got!r}"[:400])
+                        break
+    finally:
+        shutil.rmtree(tmp, ignore_errors=True)
+    return n
+
+
 def run(res, tier):
+    nedited = edited_helper(res)
     evals, nontrivial = 0, set()
     samples = []
     # 1. the entry-point catalogue (also what T4 turned into the FrameTable)
